@@ -136,7 +136,12 @@ def main(ctx, t0):
     acc = core.run_units(units(ctx), run_unit, ctx)
     core.deterministic_ids(0)
     searches = [(k, c, "reduced") for k in spaces.KINDS for c in ("default", "limit", "tau0", "tau2b")]
-    stats, a2 = e2.explore(searches, 3 if ctx.thorough else 2, ctx, chunk=16, invs=("I6",))
+    stats, a2 = e2.explore(searches, 2, ctx, chunk=16, invs=("I6",))
+    if ctx.thorough:  # deeper histories over the small alphabet (depth 4: every state reachable by three calls is expanded)
+        deep = [(k, c, "small") for (k, c, _) in searches]
+        stats_d, a2d = e2.explore(deep, 4, ctx, chunk=64, invs=("I6",))
+        stats.update(stats_d)
+        a2.merge(a2d)
     for v in a2.violations:
         v["property"] = PID
         v["key"] = "E2:" + v["key"]
